@@ -1464,5 +1464,8 @@ class ServiceAnnouncer:
         self.stop()
 
     def reboot_detected(self, addr: _T_SOCKADDR) -> None:
-        for instance in self.announcing_services:
+        # iterate over a snapshot: a listener may withdraw its service from its
+        # client_unsubscribed callback, which must not make the next instance miss
+        # the reboot
+        for instance in list(self.announcing_services):
             instance.reboot_detected(addr)
